@@ -378,6 +378,56 @@ pub fn main(args: &[String]) -> i32 {
             );
             0
         }
+        "replaymany" => {
+            // every *.json of a directory is replayed as one run (run id = position in sorted order)
+            let dir = arg(args, "--dir").expect("--dir");
+            let mut files: Vec<_> = std::fs::read_dir(dir)
+                .unwrap()
+                .filter_map(|e| e.ok())
+                .map(|e| e.path())
+                .filter(|p| p.extension().map(|x| x == "json").unwrap_or(false))
+                .collect();
+            files.sort();
+            let mut n = 0;
+            let mut steps = 0;
+            let mut pan = 0;
+            for (run, f) in files.iter().enumerate() {
+                let v: Value = match serde_json::from_str(&std::fs::read_to_string(f).unwrap()) {
+                    Ok(v) => v,
+                    Err(_) => continue,
+                };
+                if v.get("engine").and_then(|e| e.as_str()).unwrap_or("cluster") != "cluster" {
+                    continue;
+                }
+                let profile: Profile = match serde_json::from_value(v["profile"].clone()) {
+                    Ok(p) => p,
+                    Err(_) => continue,
+                };
+                let choices: Vec<Choice> = match serde_json::from_value(v["choices"].clone()) {
+                    Ok(c) => c,
+                    Err(_) => continue,
+                };
+                let mut profile = profile;
+                profile.drain = true;
+                let mut taken = Vec::new();
+                let s = run_one(&profile, run as u64, Source::Replay { choices: &choices }, &mut out, &mut taken);
+                n += 1;
+                steps += s.steps;
+                if s.panicked {
+                    pan += 1;
+                }
+                if let Some(d) = arg(args, "--choices-dir") {
+                    std::fs::write(
+                        format!("{d}/run{run}.json"),
+                        serde_json::to_string(&json!({"profile": profile, "choices": taken, "from": f.file_name().unwrap().to_string_lossy()})).unwrap(),
+                    )
+                    .unwrap();
+                }
+            }
+            out.flush().unwrap();
+            eprintln!("{}", json!({"runs": n, "steps": steps, "panics": pan, "quiescent": 0}));
+            0
+        }
         "profiles" => {
             for n in profiles::ALL {
                 println!("{}", serde_json::to_string(&profiles::get(n).unwrap()).unwrap());
